@@ -120,18 +120,21 @@ func lateCancel(c *Ctx, im *Impl) {
 	}
 	g[selfID]["n0"], g["n0"][selfID] = 1, 1
 	n.VerifSetKnownConnectionCosts(g)
-	tries := 60
+	// sessions arrive for a few seconds, each hung up the moment its connection has been
+	// inserted; every admission requests a routing-table run (0.1 s later, ~0.2 s long on this
+	// graph), so a good part of the sessions finds the runner busy
+	budget := 2500 * time.Millisecond
 	if c.Thorough() {
-		tries = 400
+		budget = 12 * time.Second
 	}
-	sessions := make([]*ScriptSess, tries)
-	for i := 0; i < tries; i++ {
+	var sessions []*ScriptSess
+	start := time.Now()
+	for i := 0; time.Since(start) < budget && i < 4000; i++ {
 		id := fmt.Sprintf("x%d", i)
 		s := NewScriptSess()
-		sessions[i] = s
+		sessions = append(sessions, s)
 		_ = n.AddBackend(&oneShot{s}, netceptor.BackendConnectionCost(1.0))
 		s.queue <- hsMsg(id)
-		// hang up the moment the connection has been inserted
 		deadline := time.Now().Add(2 * time.Second)
 		for time.Now().Before(deadline) {
 			found := false
@@ -145,9 +148,12 @@ func lateCancel(c *Ctx, im *Impl) {
 			}
 		}
 		s.Hangup()
+		s.waitClosed(5 * time.Second)
+		time.Sleep(2 * time.Millisecond)
 		im.Hist("late-cancel-session")
 		im.Count("late-cancel "+id, true)
 	}
+	tries := len(sessions)
 	closed := 0
 	for _, s := range sessions {
 		if s.waitClosed(5 * time.Second) {
